@@ -471,7 +471,7 @@ func c06Bitmap(r *Rng, g *image.Gray) (*gozxing.BinaryBitmap, string) {
 func c06Images(c *Ctx) {
 	c06LoadPhotos()
 	c.NoteN("photos-loaded", len(c06Photos))
-	n := c.Pick(3000, 100000)
+	n := c.Pick(6000, 100000)
 	c.Parallel(n, 16, func(i int, r *Rng) {
 		g, class, natural := c06GenImage(r)
 		var rs []int
